@@ -8,7 +8,7 @@ SHORTC = ["a-z", "A-Z", "0-9", "-", "_"]
 VERC = ["a-z", "A-Z", "0-9", "."]
 
 
-def create_decode(sym, rtype, layered, bp_type, ctype, n_short, n_ver, respin_max, variants=(), label=None):
+def create_decode(sym, rtype, layered, bp_type, ctype, n_short, n_ver, respin_max, variants=(), label=None, stale_id=False):
     """the created id starts with short-version[-type], validates, and decodes to (date, type, respin).
     variants: top-level variants of the compose (the id of a RHEL 5 compose on RHEL 5 carries the first of Client / Server)"""
     ci = ComposeInfo()
@@ -45,6 +45,9 @@ def create_decode(sym, rtype, layered, bp_type, ctype, n_short, n_ver, respin_ma
             ci.base_product.validate()
     except ValueError:
         return
+    if stale_id:
+        # the object still carries the id of the compose it was copied / loaded from (another release, the same date, type and respin)
+        ci.compose.id = "Old-0.9-" + date + {"production": "", "nightly": ".n", "test": ".t", "ci": ".ci", "development": ".d"}[ctype] + "." + str(respin)
     cid = ci.create_compose_id()
     sym.cover("created")
     prefix = short + "-" + version
@@ -136,6 +139,10 @@ def jobs(tier, seed):
             if big or (vi + ci_ + seed) % 2 == 0:
                 out.append({"harness": "create_decode", "params": {"rtype": "ga", "layered": True, "bp_type": "ga", "ctype": ct, "n_short": 4, "n_ver": 3,
                                                                   "respin_max": 999, "variants": variants}})
+    # objects that still carry another compose's id (same date / type / respin) when the id is created
+    for ci_, ct in enumerate(ctypes):
+        out.append({"harness": "create_decode", "params": {"rtype": ["ga", "updates"][ci_ % 2], "layered": False, "bp_type": None, "ctype": ct, "n_short": 3, "n_ver": 3,
+                                                          "respin_max": 999, "stale_id": True}})
     # composes that carry a milestone label, final or not
     for li, label in enumerate(("RC-1.0", "Beta-2.3", "Alpha-1.1")):
         for ci_, ct in enumerate(ctypes):
@@ -157,6 +164,7 @@ def jobs(tier, seed):
 META = {
     "expected_covers": {"create_decode": ["created", "decoded"], "decode_documented": ["decoded"], "decode_unknown": ["called"], "legacy_reader": ["loaded", "rewritten"]},
     "assumptions": [
+        "create_decode also on objects that still carry the id of another release (same date, type and respin) when create_compose_id is called",
         "composes with a milestone label (RC / Beta / Alpha) whose 'final' flag is symbolic",
         "composes with top-level variants (Server / Client+Workstation / Everything+Server / none) and layered releases with 4-character short names, which puts the "
         "RHEL 5 on RHEL 5 id format inside the bound",
